@@ -25,9 +25,9 @@ import (
 func init() {
 	core.Register(&core.Prop{
 		ID: "C13", Level: "exploration",
-		Rule: "cases are (template, population, surrounding body fields, parse mode): synthetic templates of depth<=3 with optional members present or absent, 0-4 entries, group first/middle/last in the body, parsed without a dictionary and with a generated dictionary defining them; plus every group of every message of every shipped dictionary with random populations parsed with its defining dictionary; non-trivial = layout with nesting or with a body field after the group; distinct by (template shape, position, entry counts) / (dictionary, message, group path)",
+		Rule:        "cases are (template, population, surrounding body fields, parse mode): synthetic templates of depth<=3 with optional members present or absent, 0-4 entries, group first/middle/last in the body, parsed without a dictionary and with a generated dictionary defining them; plus every group of every message of every shipped dictionary with random populations parsed with its defining dictionary; non-trivial = layout with nesting or with a body field after the group; distinct by (template shape, position, entry counts) / (dictionary, message, group path)",
 		Assumptions: []string{"every group entry carries its first member (the delimiter)", "fields following the group have tags that are not members of the group"},
-		FloorQuick: 200, FloorThorough: 2000,
+		FloorQuick:  200, FloorThorough: 2000,
 		Parts: []core.Part{{Name: "synthetic", Run: runSynthetic, Replay: replaySyn}, {Name: "shipped", Run: runShipped, Replay: replayShipped}},
 	})
 }
@@ -39,9 +39,9 @@ type titem struct {
 	Sub []titem
 }
 type gfield struct {
-	Tag int     `json:"tag"`
-	Val string  `json:"val,omitempty"`
-	Grp *gnode  `json:"group,omitempty"`
+	Tag int    `json:"tag"`
+	Val string `json:"val,omitempty"`
+	Grp *gnode `json:"group,omitempty"`
 }
 type gnode struct {
 	Tag     int        `json:"tag"`
